@@ -192,7 +192,8 @@ impl Tc {
                 // the matched data type is not written in the source: patterns are checked against the
                 // scrutinee's own type (constructors by name)
                 let t = self.synth_v(ctx, v)?;
-                if !matches!(t, VT::Data(_)) {
+                if !matches!(t, VT::Data(_)) && arms.len() != 1 {
+                    // a product / unit / integer scrutinee admits exactly one (irrefutable) arm
                     return err("match on a non-data value");
                 }
                 let mut out: Option<CT> = None;
